@@ -41,8 +41,6 @@ def ptr_root(t):
         if t[0] == "field" and t[1] in ("0", 0) and isinstance(t[2], tuple) and t[2][0] == "variant":
             t = t[2][2]
             continue
-        if t[0] == "ok_payload" or t[0] == "err_payload":
-            return t
         return t
 
 
